@@ -38,7 +38,7 @@ Fixpoint digits_fuel (fuel : nat) (n : N) (acc : list N) : list N :=
   end.
 
 (* strconv.FormatUint(v, 10) *)
-Definition format_uint (n : N) : str := digits_fuel (S (N.size_nat n)) n [].
+Definition format_uint (n : N) : str := digits_fuel (S (N.to_nat (N.size n))) n [].
 
 (* strconv.FormatInt(v, 10) *)
 Definition format_int (z : Z) : str :=
@@ -59,7 +59,7 @@ Fixpoint hex_digits_fuel (fuel : nat) (n : N) (acc : list N) : list N :=
 
 (* writer.formatHexInt *)
 Definition format_hex (hex : bool) (n : N) : str :=
-  if hex then ch_0 :: ch_x :: hex_digits_fuel (S (N.size_nat n)) n [] else format_uint n.
+  if hex then ch_0 :: ch_x :: hex_digits_fuel (S (N.to_nat (N.size n))) n [] else format_uint n.
 
 (* ---- pieces ---- *)
 Definition sp : piece := Sp [ch_sp].
